@@ -292,8 +292,12 @@ def rank_col(values):
     return out
 
 
+def zopt(v):
+    return "(@None Z)" if v is None else f"(Some {cz(v)})"
+
+
 def c_cfg(page, factor, pp, lim):
-    return f"({cz(page)}, {cz(factor if factor is not None else DEFAULT_FACTOR)}, {cbool(pp)}, {copt(lim, cz)})"
+    return f"({cz(page)}, {cz(factor if factor is not None else DEFAULT_FACTOR)}, {cbool(pp)}, {zopt(lim)})"
 
 
 def c_xrows(rows):
@@ -301,11 +305,11 @@ def c_xrows(rows):
 
 
 def c_res_int(v):
-    return copt(v if isinstance(v, int) else None, cz)
+    return zopt(v if isinstance(v, int) else None)
 
 
 def c_res_bool(v):
-    return copt(v if isinstance(v, bool) else None, cbool)
+    return "(@None bool)" if not isinstance(v, bool) else f"(Some {cbool(v)})"
 
 
 def is_err(x):
@@ -419,13 +423,13 @@ class Judge:
                 self.exec_cases.append(c)
                 self.exec_meta.append({"case": {k: v for k, v in case.items() if k != 'meta'}, "limit": lim, "observed": {k: ob[k] for k in ("ids", "counts", "anys")}})
                 if ob["trace"] and (raw is not None or not ent.pp) and all(isinstance(t["limit_before"], (int, type(None))) for t in ob["trace"]):
-                    t3 = clist(f"({copt(t['limit_before'], cz)}, {cz(t['n_in'])}, {cz(t['n_out'])})" for t in ob["trace"])
+                    t3 = clist(f"({zopt(t['limit_before'])}, {cz(t['n_in'])}, {cz(t['n_out'])})" for t in ob["trace"])
                     self.trace_cases.append(f"({c_cfg(page, factor, ent.pp, lim)}, {c_xrows(xrows)}, {t3})")
                     self.trace_meta.append({"case": case["q"], "page": page, "factor": factor, "limit": lim})
             # ORDER BY model: base rows in identity order, one column per key
             base = sorted(full)
             cols = [rank_col([ent.fields[n](t) for t in base]) for n, _ in keys]
-            rows = clist(clist([f"Some {cz(enc(t))}"] + [copt(col[i], cz) for col in cols]) for i, t in enumerate(base))
+            rows = clist(clist([f"Some {cz(enc(t))}"] + [zopt(col[i]) for col in cols]) for i, t in enumerate(base))
             ks = clist(f"({j + 1}%nat, {cbool(desc)})" for j, (_, desc) in enumerate(keys))
             self.order_cases.append(f"({ks}, {rows}, {clist(cz(enc(t)) for t in full)})")
             self.order_meta.append({"q": case["q"], "ordered": full})
@@ -518,7 +522,7 @@ class Judge:
             if is_err(ids):
                 if not (want_empty_err and ids["err"] == "EmptyQueryResultError"):
                     self.fail(f"exception:{tag}:limit", case, "Butler.query_* raised", **rep)
-                got_c = "None"
+                got_c = "(@None (list Z))"
             else:
                 ids = [tup(x) for x in ids]
                 if want_empty_err:
@@ -536,7 +540,7 @@ class Judge:
             if total and got_c is not None:
                 page, factor = case["page"], case.get("factor")
                 self.butler_cases.append(
-                    f"(({cz(page)}, {cz(factor if factor is not None else DEFAULT_FACTOR)}, {cbool(ent.pp)}, {copt(lim, cz)}, {cbool(explain)}), "
+                    f"(({cz(page)}, {cz(factor if factor is not None else DEFAULT_FACTOR)}, {cbool(ent.pp)}, {zopt(lim)}, {cbool(explain)}), "
                     f"{c_xrows(xrows)}, ({got_c}, {cbool(ob['warned'])}))")
                 self.butler_meta.append({"q": case["q"], "limit": lim, "explain": explain, "observed": ob})
 
@@ -622,7 +626,7 @@ class Judge:
         def zval(k, v):
             return ranks[k][allvals[k].index(v)]
 
-        crows = clist(clist([f"Some {cz(enc(t))}"] + [copt(ranks[k][i], cz) for k in ckeys]) for i, t in enumerate(rows))
+        crows = clist(clist([f"Some {cz(enc(t))}"] + [zopt(ranks[k][i]) for k in ckeys]) for i, t in enumerate(rows))
 
         def cd(dd):
             return clist(f"({ckeys.index(k) + 1}%nat, {cz(zval(k, v))})" for k, v in (dd or {}).items())
